@@ -27,6 +27,22 @@ import itertools
 _counter = itertools.count()
 
 
+def _clone(node):
+    """Structural copy of an AST (fields and positions only: parent links and model attributes are not followed)."""
+    if isinstance(node, list):
+        return [_clone(x) for x in node]
+    if not isinstance(node, ast.AST):
+        return node
+    new = type(node)()
+    for f in node._fields:
+        if hasattr(node, f):
+            setattr(new, f, _clone(getattr(node, f)))
+    for a in ("lineno", "col_offset", "end_lineno", "end_col_offset"):
+        if hasattr(node, a):
+            setattr(new, a, getattr(node, a))
+    return new
+
+
 class NotInlinable(Exception):
     pass
 
@@ -101,7 +117,7 @@ def _elim_returns(stmts, res):
                 new = ast.If(test=s.test, body=_elim_returns(s.body, res), orelse=_elim_returns(s.orelse, res))
             else:
                 # a return somewhere inside, not at the tail of a branch: duplicate the rest into both branches
-                new = ast.If(test=s.test, body=_elim_returns(list(s.body) + copy.deepcopy(rest), res),
+                new = ast.If(test=s.test, body=_elim_returns(list(s.body) + _clone(rest), res),
                              orelse=_elim_returns(list(s.orelse) + rest, res))
             if not new.body:
                 new.body = [ast.Pass()]
@@ -145,7 +161,7 @@ def _bind_params(h, call, prefix):
         if p in bound:
             v = bound[p]
         elif p in defaults:
-            v = copy.deepcopy(defaults[p])
+            v = _clone(defaults[p])
         else:
             raise NotInlinable("missing argument")
         out.append(ast.copy_location(ast.Assign(targets=[ast.Name(id=prefix + p, ctx=ast.Store())], value=v), call))
@@ -162,7 +178,7 @@ def _helper_body(mod, h, call, res, caller):
     prefix = f"_{h.name.strip('_')}{next(_counter)}_"
     names = _assigned_names(h)
     mapping = {n: prefix + n for n in names}
-    body = copy.deepcopy(h.body)
+    body = _clone(h.body)
     # drop the docstring
     if body and isinstance(body[0], ast.Expr) and isinstance(body[0].value, ast.Constant) and isinstance(body[0].value.value, str):
         body = body[1:]
@@ -181,7 +197,7 @@ def _generator_body(mod, g, call, target, loop_body, caller):
         raise NotInlinable("nested definitions")
     prefix = f"_{g.name.strip('_')}{next(_counter)}_"
     mapping = {n: prefix + n for n in _assigned_names(g)}
-    body = copy.deepcopy(g.body)
+    body = _clone(g.body)
     if body and isinstance(body[0], ast.Expr) and isinstance(body[0].value, ast.Constant) and isinstance(body[0].value.value, str):
         body = body[1:]
     body = [_Rename(mapping).visit(s) for s in body]
@@ -191,8 +207,8 @@ def _generator_body(mod, g, call, target, loop_body, caller):
         def visit_Expr(self, n):
             if isinstance(n.value, ast.Yield):
                 val = n.value.value if n.value.value is not None else ast.Constant(value=None)
-                asg = ast.copy_location(ast.Assign(targets=[copy.deepcopy(target)], value=val), n)
-                return [asg] + copy.deepcopy(loop_body)
+                asg = ast.copy_location(ast.Assign(targets=[_clone(target)], value=val), n)
+                return [asg] + _clone(loop_body)
             return n
 
     for n in ast.walk(ast.Module(body=body, type_ignores=[])):
@@ -213,18 +229,97 @@ def _generator_body(mod, g, call, target, loop_body, caller):
     return _bind_params(g, call, prefix) + [init] + new
 
 
+def _is_new_helper(mod, qual):
+    """Only functions that did not exist when the rules were written are expanded (extracted helpers)."""
+    from .corefuncs import CORE_FUNCS
+    return qual not in CORE_FUNCS.get(mod.name, set())
+
+
 def _module_helper(mod, f, caller=None):
-    if isinstance(f, ast.Name) and f.id in mod.funcs and "." not in f.id:
-        h = mod.funcs[f.id]
-        if isinstance(h, ast.FunctionDef) and getattr(h, "cls", None) is None:
+    if isinstance(f, ast.Name) and f.id in mod.raw_funcs and "." not in f.id:
+        h = mod.raw_funcs[f.id]
+        if isinstance(h, ast.FunctionDef) and getattr(h, "cls", None) is None and _is_new_helper(mod, f.id):
             return h
     # self.method(...) inside a method of the same class
     cls = getattr(caller, "cls", None)
     if cls is not None and isinstance(f, ast.Attribute) and isinstance(f.value, ast.Name) and f.value.id == "self":
-        h = mod.funcs.get(f"{cls.qual}.{f.attr}")
-        if isinstance(h, ast.FunctionDef) and not h.decorator_list and h.args.args and h.args.args[0].arg == "self":
+        h = mod.raw_funcs.get(f"{cls.qual}.{f.attr}")
+        if h is None:
+            # inherited helper defined in a base class of the same module
+            for q, cand in mod.raw_funcs.items():
+                if q.endswith("." + f.attr) and getattr(cand, "cls", None) is not None and any(isinstance(b, ast.Name) and b.id == cand.cls.name for b in cls.bases):
+                    h = cand
+        if isinstance(h, ast.FunctionDef) and not h.decorator_list and h.args.args and h.args.args[0].arg == "self" and _is_new_helper(mod, h.qual):
             return h
     return None
+
+
+def _single_expr_helper(h):
+    body = list(h.body)
+    if body and isinstance(body[0], ast.Expr) and isinstance(body[0].value, ast.Constant) and isinstance(body[0].value.value, str):
+        body = body[1:]
+    if len(body) == 1 and isinstance(body[0], ast.Return) and body[0].value is not None and not h.decorator_list \
+            and not _has(h, (ast.Yield, ast.YieldFrom, ast.Lambda, ast.NamedExpr, ast.ListComp, ast.SetComp, ast.DictComp, ast.GeneratorExp)):
+        return body[0].value
+    return None
+
+
+def _pure_arg(e):
+    return isinstance(e, (ast.Name, ast.Constant)) or isinstance(e, ast.Attribute) and _pure_arg(e.value) or \
+        isinstance(e, ast.Subscript) and _pure_arg(e.value) and _pure_arg(e.slice)
+
+
+class _ExprInline(ast.NodeTransformer):
+    """f(a, b) -> <returned expression of f with parameters replaced>, for helpers that are one return expression."""
+
+    def __init__(self, mod, caller, log, depth):
+        self.mod, self.caller, self.log, self.depth = mod, caller, log, depth
+
+    def visit_Call(self, c):
+        self.generic_visit(c)
+        if self.depth <= 0:
+            return c
+        h = _module_helper(self.mod, c.func, self.caller)
+        if h is None or h is self.caller:
+            return c
+        expr = _single_expr_helper(h)
+        if expr is None or c.keywords and any(k.arg is None for k in c.keywords) or any(isinstance(a, ast.Starred) for a in c.args):
+            return c
+        a = h.args
+        if a.vararg or a.kwarg or a.posonlyargs or a.kwonlyargs:
+            return c
+        params = [x.arg for x in a.args]
+        args = list(c.args)
+        if isinstance(c.func, ast.Attribute) and params[:1] == ["self"]:
+            args = [ast.Name(id="self", ctx=ast.Load())] + args
+        defaults = dict(zip(params[len(params) - len(a.defaults):], a.defaults))
+        bound = dict(zip(params, args))
+        for k in c.keywords:
+            bound[k.arg] = k.value
+        for p in params:
+            if p not in bound:
+                if p in defaults:
+                    bound[p] = _clone(defaults[p])
+                else:
+                    return c
+        uses = {}
+        for n in ast.walk(expr):
+            if isinstance(n, ast.Name) and n.id in bound:
+                uses[n.id] = uses.get(n.id, 0) + 1
+        if any(not _pure_arg(v) and uses.get(p, 0) > 1 for p, v in bound.items()):
+            return c
+        if any(isinstance(n, ast.Name) and isinstance(n.ctx, ast.Store) for n in ast.walk(expr)):
+            return c
+
+        class Sub(ast.NodeTransformer):
+            def visit_Name(self_, n):
+                if n.id in bound and isinstance(n.ctx, ast.Load):
+                    return _clone(bound[n.id])
+                return n
+        new = Sub().visit(_clone(expr))
+        self.log.append(h.name)
+        new = _ExprInline(self.mod, self.caller, self.log, self.depth - 1).visit(new)
+        return ast.copy_location(new, c)
 
 
 def _expand(mod, stmts, caller, depth, log):
@@ -277,7 +372,7 @@ def inline_function(mod, fn, depth=3):
         cache = mod._inline_cache = {}
     if id(fn) in cache:
         return cache[id(fn)][0]
-    new = copy.deepcopy(fn)
+    new = _clone(fn)
     log = []
     new.body = _expand(mod, new.body, fn, depth, log)
     if not log:
@@ -331,7 +426,7 @@ def _desugar_comprehension_loops(stmts):
 
 
 def _comp_to_loops(comp, target, body, at):
-    inner = [ast.copy_location(ast.Assign(targets=[copy.deepcopy(target)], value=comp.elt), at)] + body
+    inner = [ast.copy_location(ast.Assign(targets=[_clone(target)], value=comp.elt), at)] + body
     for gen in reversed(comp.generators):
         for cond in reversed(gen.ifs):
             inner = [ast.copy_location(ast.If(test=cond, body=inner, orelse=[]), at)]
@@ -401,6 +496,93 @@ def _copy_propagate(fn):
     return R().visit(fn)
 
 
+def _hoist_nested_helper_calls(mod, stmts, caller):
+    """stmt(... helper(args) ...)  ->  tmp = helper(args); stmt(... tmp ...)   for multi-statement helpers used in
+    expression position of a simple statement (so that statement-level expansion can take over)."""
+    out = []
+    for s in stmts:
+        for fld in ("body", "orelse", "finalbody"):
+            if isinstance(getattr(s, fld, None), list) and not isinstance(s, (ast.FunctionDef, ast.ClassDef)):
+                setattr(s, fld, _hoist_nested_helper_calls(mod, getattr(s, fld), caller))
+        for hnd in getattr(s, "handlers", []) or []:
+            hnd.body = _hoist_nested_helper_calls(mod, hnd.body, caller)
+        if isinstance(s, (ast.Expr, ast.Assign, ast.AugAssign, ast.Return)):
+            top = s.value if not isinstance(s, ast.Expr) else s.value
+            pre = []
+            for c in list(ast.walk(s)):
+                if isinstance(c, ast.Call) and c is not top and not isinstance(getattr(c, "_hoisted", None), bool):
+                    h = _module_helper(mod, c.func, caller)
+                    if h is not None and h is not caller and _single_expr_helper(h) is None and not _has(h, (ast.Yield, ast.YieldFrom)):
+                        # only hoist when evaluation order is not disturbed: the call's arguments are pure
+                        if all(_pure_arg(a) for a in c.args) and not c.keywords:
+                            tmp = f"_{h.name.strip('_')}_val{next(_counter)}"
+                            pre.append(ast.copy_location(ast.Assign(targets=[ast.Name(id=tmp, ctx=ast.Store())], value=_clone(c)), s))
+                            # replace c by the temp in s
+                            class Rep(ast.NodeTransformer):
+                                def visit_Call(self_, n):
+                                    if n is c:
+                                        return ast.copy_location(ast.Name(id=tmp, ctx=ast.Load()), n)
+                                    return self_.generic_visit(n)
+                            s = Rep().visit(s)
+            out.extend(pre)
+        out.append(s)
+    return out
+
+
+def _sink_into_branches(stmts):
+    """if c: t = A else: t = B; use(t)   ->   if c: use(A) else: use(B)     (t bound in every branch, used only there)"""
+    out = []
+    i = 0
+    while i < len(stmts):
+        s = stmts[i]
+        for fld in ("body", "orelse", "finalbody"):
+            if isinstance(getattr(s, fld, None), list) and not isinstance(s, (ast.FunctionDef, ast.ClassDef)):
+                setattr(s, fld, _sink_into_branches(getattr(s, fld)))
+        for hnd in getattr(s, "handlers", []) or []:
+            hnd.body = _sink_into_branches(hnd.body)
+        nxt = stmts[i + 1] if i + 1 < len(stmts) else None
+        done = False
+        if isinstance(s, ast.If) and s.orelse and isinstance(nxt, ast.Expr):
+            def last_assign(block):
+                b = block
+                while b and isinstance(b[-1], ast.If) and b[-1].orelse:
+                    return None
+                if b and isinstance(b[-1], ast.Assign) and len(b[-1].targets) == 1 and isinstance(b[-1].targets[0], ast.Name):
+                    return b[-1]
+                return None
+            leaves = []
+
+            def collect(block):
+                if block and isinstance(block[-1], ast.If) and block[-1].orelse:
+                    return collect(block[-1].body) and collect(block[-1].orelse)
+                a = last_assign(block)
+                if a is None:
+                    return False
+                leaves.append((block, a))
+                return True
+            if collect(s.body) and collect(s.orelse):
+                names = {a.targets[0].id for _, a in leaves}
+                if len(names) == 1:
+                    t = names.pop()
+                    uses = [n for n in ast.walk(nxt) if isinstance(n, ast.Name) and n.id == t]
+                    later = any(isinstance(n, ast.Name) and n.id == t for st in stmts[i + 2:] for n in ast.walk(st))
+                    if len(uses) == 1 and not later and t.startswith("_"):
+                        for block, a in leaves:
+                            class Rep(ast.NodeTransformer):
+                                def visit_Name(self_, n):
+                                    if n.id == t and isinstance(n.ctx, ast.Load):
+                                        return _clone(a.value)
+                                    return n
+                            block[-1] = ast.copy_location(Rep().visit(_clone(nxt)), a)
+                        out.append(s)
+                        i += 2
+                        done = True
+        if not done:
+            out.append(s)
+            i += 1
+    return out
+
+
 def canonical_function(mod, fn, depth=3):
     """inline helpers, desugar comprehension-fed loops, propagate module literals and trivial aliases."""
     cache = getattr(mod, "_canon_cache", None)
@@ -408,8 +590,18 @@ def canonical_function(mod, fn, depth=3):
         cache = mod._canon_cache = {}
     if id(fn) in cache:
         return cache[id(fn)][0]
-    base = inline_function(mod, fn, depth)
-    new = copy.deepcopy(base) if base is fn else base
+    pre = _clone(fn)
+    pre.qual, pre.module, pre.cls = fn.qual, fn.module, getattr(fn, "cls", None)
+    pre.body = _hoist_nested_helper_calls(mod, pre.body, fn)
+    hoisted = ast.dump(pre) != ast.dump(fn)
+    base = inline_function(mod, pre if hoisted else fn, depth)
+    new = _clone(base) if base is fn else base
+    new.body = _sink_into_branches(new.body)
+    elog = []
+    new = _ExprInline(mod, fn, elog, 2).visit(new)
+    if elog:
+        # expression helpers may have exposed new statement-level helper calls / nothing else to do
+        new.inlined_helpers = sorted(set(getattr(base, "inlined_helpers", [])) | set(elog))
     before = ast.dump(new)
     new.body = _desugar_comprehension_loops(new.body)
     local_names = _assigned_names(new)
@@ -424,6 +616,6 @@ def canonical_function(mod, fn, depth=3):
             c.parent = n
     new.parent = getattr(fn, "parent", None)
     new.qual, new.module, new.cls = fn.qual, fn.module, getattr(fn, "cls", None)
-    new.inlined_helpers = getattr(base, "inlined_helpers", [])
+    new.inlined_helpers = sorted(set(getattr(base, "inlined_helpers", [])) | set(getattr(new, "inlined_helpers", [])))
     cache[id(fn)] = (new, fn)
     return new
